@@ -307,9 +307,9 @@ def shards(tier, seed):
     q = tier == "quick"
     out = []
     for i in range(6 if q else 24):
-        out.append(("systematic_%d" % i, dict(kind="systematic", scenarios=3 if q else 12, limit=120 if q else 1500, instr=not q)))
+        out.append(("systematic_%d" % i, dict(kind="systematic", scenarios=2 if q else 12, limit=100 if q else 1500, instr=not q)))
     for i in range(4 if q else 12):
-        out.append(("systematic_keys_%d" % i, dict(kind="systematic_keys", scenarios=2 if q else 8, limit2=60 if q else 1500, instr=not q)))
+        out.append(("systematic_keys_%d" % i, dict(kind="systematic_keys", scenarios=1 if q else 8, limit2=40 if q else 1500, instr=not q)))
     for i in range(4 if q else 16):
         out.append(("random_%d" % i, dict(kind="random", scenarios=10 if q else 60, per=12 if q else 60, instr=(i % 2 == 1))))
     for i in range(2 if q else 8):
